@@ -108,6 +108,9 @@ func parseTok(tok string) val {
 			src = struct{}{}
 		}
 		return val{kind: 's', src: src, tok: tok}
+	case strings.HasPrefix(tok, "g") && globalObj(tok) != nil:
+		// the package-level object ITSELF is passed (not a copy)
+		return val{kind: 'i', i: globalObj(tok), tok: tok}
 	default:
 		v, ok := new(big.Int).SetString(tok, 10)
 		if !ok {
@@ -115,6 +118,32 @@ func parseTok(tok string) val {
 		}
 		return val{kind: 'i', i: v, tok: tok}
 	}
+}
+
+func globalObj(tok string) *big.Int {
+	switch tok {
+	case "gQ":
+		return constants.Q
+	case "gZero":
+		return constants.Zero
+	case "gOne":
+		return constants.One
+	case "gMinusOne":
+		return constants.MinusOne
+	case "gA":
+		return babyjub.A
+	case "gD":
+		return babyjub.D
+	case "gOrder":
+		return babyjub.Order
+	case "gSubOrder":
+		return babyjub.SubOrder
+	case "gB8x":
+		return babyjub.B8.X
+	case "gB8y":
+		return babyjub.B8.Y
+	}
+	return nil
 }
 
 func (v val) snap() string {
@@ -312,6 +341,13 @@ func dispatch(op string, a []val) string {
 		p := babyjub.NewPoint()
 		r := p.Set(mkPoint(a[0].i, a[1].i))
 		return pt(p) + " " + pt(r)
+	case "mulB8": // s * B8 with the package-level point itself as argument
+		return pt(babyjub.NewPoint().Mul(a[0].i, babyjub.B8))
+	case "incurveB8":
+		return boolS(babyjub.B8.InCurve()) + " " + boolS(babyjub.B8.InSubGroup())
+	case "compressB8":
+		r := babyjub.B8.Compress()
+		return xB(r[:])
 	case "incurve":
 		return boolS(mkPoint(a[0].i, a[1].i).InCurve())
 	case "insub":
